@@ -30,7 +30,7 @@ UNREACHED_LINES = [
     (r"obj\.unit_cell_width = len\(obj\.sites\)", LEGACY),
     (r"obj\.segment_boundaries = \(None, None\)", LEGACY),
     (r"obj\.diagonal_gauge = False", LEGACY),
-    (r"elif isinstance\(state, tuple\):|self\._data,|self\._qdata,|self\._qdata_sorted,|self\.chinfo,|self\.dtype,|^labels,$|self\.legs,|self\.qtotal,|self\.rank,|self\.shape,|\) = state|^\($|self\.labels = labels",
+    (r"elif isinstance\(state, tuple\):|self\._data,|self\._qdata,|self\._qdata_sorted,|self\.chinfo,|self\.dtype,|^labels,$|self\.legs,|self\.qtotal,|self\.rank,|self\.shape,|\) = state|^\($|self\.labels = labels|self\._labels = \[None\] \* self\.rank|self\.iset_leg_labels\(labels\)",
      'Array.__setstate__ for the state tuple of the compiled TeNPy 0.3.0: ' + LEGACY),
     (r"raise ValueError\('setstate with incompatible type of state'\)", 'defensive error for a state no __getstate__ produces'),
     (r"obj = str\(h5gr\[\(\)\]\)", 'h5py < 3.0 only'),
